@@ -216,7 +216,7 @@ fn structural_cases(text: &str, out: &mut Vec<Case>) {
             // raw '<' in an attribute value
             push("lt-in-attribute-value", splice(text, *vs, 0, "<"), Expect::Reject);
             push("bare-amp-in-attribute-value", splice(text, *vs, 0, "& "), Expect::Reject);
-            for r in ["&#0;", "&#xFFFE;", "&#xD800;", "&#x110000;", "&#1;", "&bogus;"] {
+            for r in ["&#0;", "&#xFFFE;", "&#xD800;", "&#x110000;", "&#1;", "&bogus;", "&#x100000041;", "&#4294967361;", "&#99999999999999999999;"] {
                 if !aname.starts_with("xmlns") {
                     push("bad-reference-in-attribute", splice(text, *vs, 0, r), Expect::Reject);
                 }
@@ -258,6 +258,17 @@ fn structural_cases(text: &str, out: &mut Vec<Case>) {
         let s1 = splice(text, b.name.1, 0, " xml:id=\"dupid\"");
         let s2 = splice(&s1, a.name.1, 0, " xml:id=\"dupid\"");
         push("duplicate-xml-id-two-elements", s2, Expect::Reject);
+        // xml:id values are normalised before they are compared
+        for (va, vb) in [("dupid", " dupid"), (" dupid", "dupid "), ("dup id", "dup   id"), ("dupid", "&#32;dupid"), (" dupid", " dupid")] {
+            let s1 = splice(text, b.name.1, 0, &format!(" xml:id=\"{}\"", vb));
+            let s2 = splice(&s1, a.name.1, 0, &format!(" xml:id=\"{}\"", va));
+            push("duplicate-xml-id-after-normalisation", s2, Expect::Reject);
+        }
+        for (va, vb) in [("ida", "idb"), ("id a", "ida"), ("x", " y ")] {
+            let s1 = splice(text, b.name.1, 0, &format!(" xml:id=\"{}\"", vb));
+            let s2 = splice(&s1, a.name.1, 0, &format!(" xml:id=\"{}\"", va));
+            push("distinct-xml-ids", s2, Expect::Accept);
+        }
     }
     // undeclare a used prefix: remove a declaration and see whether the independent resolver objects
     for t in &sp.stags {
@@ -289,8 +300,16 @@ fn structural_cases(text: &str, out: &mut Vec<Case>) {
             push("raw-lt-in-content", splice(text, pos, 0, "< "), Expect::Reject);
             push("raw-amp-in-content", splice(text, pos, 0, "& "), Expect::Reject);
             push("unterminated-reference", splice(text, pos, 0, "&amp "), Expect::Reject);
-            for r in ["&#0;", "&#xFFFE;", "&#xFFFF;", "&#xD800;", "&#x110000;", "&#8;", "&#;", "&#x;", "&bogus;"] {
+            for r in [
+                "&#0;", "&#xFFFE;", "&#xFFFF;", "&#xD800;", "&#x110000;", "&#8;", "&#;", "&#x;", "&bogus;",
+                // values beyond any machine word
+                "&#x100000041;", "&#4294967361;", "&#99999999999999999999;", "&#xFFFFFFFFFFFFFFFF41;",
+                "&#-65;", "&#+65;", "&#x+41;", "&# 65;", "&#65 ;", "&#X41;",
+            ] {
                 push("bad-reference-in-content", splice(text, pos, 0, r), Expect::Reject);
+            }
+            for r in ["&#x0000000041;", "&#0000000065;", "&#x10FFFF;", "&#xFFFD;", "&#xE000;", "&#xD7FF;", "&#32;"] {
+                push("charref-boundary-in-content", splice(text, pos, 0, r), Expect::Accept);
             }
             for (r, k) in [("&#9;", "tab"), ("&#10;", "lf"), ("&#13;", "cr"), ("&#x1F600;", "astral"), ("&#xE9;", "latin")] {
                 push(&format!("charref-{}-in-content", k), splice(text, pos, 0, r), Expect::Accept);
